@@ -35,7 +35,7 @@ Rng(f) == {f[i] : i \in DOMAIN f}
 \* messages as the observers see them (one uniform record shape)
 Base == [k |-> "", req |-> 0, a |-> 0, b |-> 0, x |-> 0, y |-> 0,
          u |-> <<>>, v |-> <<>>, w |-> <<>>, e |-> "", d |-> {}, pd |-> {}, ids |-> {},
-         p |-> "", t |-> 0]
+         p |-> "", hl |-> <<>>, t |-> 0]
 
 T_SUBSCRIBE == 32  T_UNSUBSCRIBE == 34  T_PUBLISH == 16  T_REGISTER == 64
 T_UNREGISTER == 66 T_CALL == 48  T_CANCEL == 49  T_INVOCATION == 68  T_YIELD == 70
@@ -448,6 +448,129 @@ LeaveFx(S, s, how, reason) ==
                                         !.pd = {<<"authid", Attr(S, s, "authid")>>, <<"authrole", Attr(S, s, "authrole")>>}])
   \* finally the router closes the session's transport
   IN Emit(Sh, s, [Base EXCEPT !.k = "CLOSED", !.t = S.now])
+
+\* --------------------------------------------------------------------------
+\* meta API: every procedure is a view of (or an operation on) the current state
+RECURSIVE Str(_)
+Str(cs) == IF cs = <<>> THEN "" ELSE cs[1] \o Str(Tail(cs))
+
+ResultMsg(S, req) == [Base EXCEPT !.k = "RESULT", !.req = req, !.y = 1, !.t = S.now]   \* y = 1: answer of a meta procedure
+CallErr(S, s, req, uri) == Emit(S, s, ErrorMsg(T_CALL, req, uri, S))
+
+RECURSIVE KillFx(_, _, _, _)
+KillFx(S, victims, how, reason) ==
+  IF victims = {} THEN S
+  ELSE LET v == CHOOSE x \in victims : TRUE IN KillFx(LeaveFx(S, v, how, reason), victims \ {v}, how, reason)
+
+KillReason(i) == IF i.uri2 = <<>> THEN CloseNormal ELSE Str(i.uri2)
+
+ListByMatch(tbl) == {<<k[2], ToString(tbl[k].id)>> : k \in DOMAIN tbl}
+
+\* retained publications of history key k selected by the filters of input i
+\* (times in ms of the virtual clock, 0 / <<>> = filter absent)
+HistSelect(S, k, f) ==
+  LET q == S.hist[k]
+      idx(pub) == IF \E j \in DOMAIN q : q[j].pub = pub THEN CHOOSE j \in DOMAIN q : q[j].pub = pub ELSE 0
+      okTime(e) == /\ (f.from_t = 0 \/ e.t >= f.from_t) /\ (f.after_t = 0 \/ e.t > f.after_t)
+                   /\ (f.before_t = 0 \/ e.t < f.before_t) /\ (f.until_t = 0 \/ e.t <= f.until_t)
+      okPub(j)  == /\ (f.from_p = 0 \/ (idx(f.from_p) # 0 /\ j >= idx(f.from_p)))
+                   /\ (f.after_p = 0 \/ (idx(f.after_p) # 0 /\ j > idx(f.after_p)))
+                   /\ (f.before_p = 0 \/ idx(f.before_p) = 0 \/ j < idx(f.before_p))
+                   /\ (f.until_p = 0 \/ idx(f.until_p) = 0 \/ j <= idx(f.until_p))
+      okTopic(e) == f.topic = <<>> \/ e.topic = f.topic
+      sel  == SelectSeq([j \in DOMAIN q |-> [j |-> j, e |-> q[j]]],
+                        LAMBDA r : okTime(r.e) /\ okPub(r.j) /\ okTopic(r.e))
+  IN [j \in DOMAIN sel |-> sel[j].e]
+
+\* i = the input record (fields uri = procedure, id, uri2, args, o, tag, f); hp = the
+\* publication ids logged for a get_events answer (binds ids not observed before);
+\* pick = the registration id answered by wamp.registration.match (any best match)
+MetaPre(S, i, pick) ==
+  (i.uri = U_registration_match /\ BestRegs(S, i.uri2) # {}) => pick \in {S.regs[k].id : k \in BestRegs(S, i.uri2)}
+
+MetaCallFx(S, s, req, i, hp, pick) ==
+  LET proc == i.uri
+      sid  == SidOf(S, s)
+      byId == {v \in Joined(S) : SidOf(S, v) = i.id}
+      R    == ResultMsg(S, req)
+      subk == SubKeyById(S, i.id)
+      regk == RegKeyById(S, i.id)
+      k2   == <<i.uri2, NormMatch(i.o.match)>>
+  IN
+  CASE proc = U_session_count ->
+         Emit(S, s, [R EXCEPT !.x = Cardinality({v \in Joined(S) : i.args = <<>> \/ Attr(S, v, "authrole") \in Rng(i.args)})])
+    [] proc = U_session_list ->
+         Emit(S, s, [R EXCEPT !.ids = {SidOf(S, v) : v \in {vv \in Joined(S) : i.args = <<>> \/ Attr(S, vv, "authrole") \in Rng(i.args)}}])
+    [] proc = U_session_get ->
+         IF byId = {} THEN CallErr(S, s, req, ErrNoSuchSession)
+         ELSE LET v == CHOOSE vv \in byId : TRUE IN Emit(S, s, [R EXCEPT !.x = i.id, !.pd = IdentPairs(S, v)])
+    [] proc = U_session_kill ->
+         IF ~S.cfg.metakill THEN CallErr(S, s, req, ErrNoSuchProc)
+         ELSE IF i.id = sid THEN CallErr(S, s, req, ErrNoSuchSession)       \* never the caller
+         ELSE IF i.uri2 # <<>> /\ ~ValidURI(FALSE, "exact", i.uri2) THEN CallErr(S, s, req, ErrInvalidURI)
+         ELSE IF byId = {} THEN CallErr(S, s, req, ErrNoSuchSession)
+         ELSE KillFx(Emit(S, s, R), byId, "kill", KillReason(i))
+    [] proc \in {U_session_kill_by_authid, U_session_kill_by_authrole, U_session_kill_all} ->
+         IF ~S.cfg.metakill THEN CallErr(S, s, req, ErrNoSuchProc)
+         ELSE IF proc # U_session_kill_all /\ i.args = <<>> THEN CallErr(S, s, req, ErrNoSuchSession)
+         ELSE IF i.uri2 # <<>> /\ ~ValidURI(FALSE, "exact", i.uri2) THEN CallErr(S, s, req, ErrInvalidURI)
+         ELSE LET vs == {v \in Joined(S) \ {s} :
+                           CASE proc = U_session_kill_by_authid   -> Attr(S, v, "authid") = i.args[1]
+                             [] proc = U_session_kill_by_authrole -> Attr(S, v, "authrole") = i.args[1]
+                             [] OTHER -> TRUE}
+              IN KillFx(Emit(S, s, [R EXCEPT !.x = Cardinality(vs)]), vs,
+                        IF proc = U_session_kill_all THEN "killall" ELSE "kill", KillReason(i))
+    [] proc = U_registration_list -> Emit(S, s, [R EXCEPT !.pd = ListByMatch(S.regs)])
+    [] proc = U_registration_lookup ->
+         Emit(S, s, [R EXCEPT !.x = IF k2 \in DOMAIN S.regs THEN S.regs[k2].id ELSE 0])
+    [] proc = U_registration_match ->
+         \* agrees with how a call to that URI would be routed (any best match)
+         Emit(S, s, [R EXCEPT !.x = IF BestRegs(S, i.uri2) = {} THEN 0 ELSE pick])
+    [] proc = U_registration_get ->
+         IF regk = {} THEN CallErr(S, s, req, ErrNoSuchReg)
+         ELSE LET k == CHOOSE kk \in regk : TRUE IN
+              Emit(S, s, [R EXCEPT !.x = i.id, !.w = k[1], !.pd = {<<"match", k[2]>>, <<"invoke", S.regs[k].policy>>}])
+    [] proc = U_registration_list_callees ->
+         IF regk = {} THEN CallErr(S, s, req, ErrNoSuchReg)
+         ELSE Emit(S, s, [R EXCEPT !.ids = {SidOf(S, c) : c \in Rng(S.regs[CHOOSE kk \in regk : TRUE].callees)}])
+    [] proc = U_registration_count_callees ->
+         IF regk = {} THEN CallErr(S, s, req, ErrNoSuchReg)
+         ELSE Emit(S, s, [R EXCEPT !.x = Len(S.regs[CHOOSE kk \in regk : TRUE].callees)])
+    [] proc = U_subscription_list -> Emit(S, s, [R EXCEPT !.pd = ListByMatch(S.subs)])
+    [] proc = U_subscription_lookup ->
+         Emit(S, s, [R EXCEPT !.x = IF k2 \in DOMAIN S.subs THEN S.subs[k2].id ELSE 0])
+    [] proc = U_subscription_match ->
+         Emit(S, s, [R EXCEPT !.ids = {S.subs[k].id : k \in {kk \in DOMAIN S.subs : MatchKey(kk, i.uri2)}}])
+    [] proc = U_subscription_get ->
+         IF subk = {} THEN CallErr(S, s, req, ErrNoSuchSub)
+         ELSE LET k == CHOOSE kk \in subk : TRUE IN
+              Emit(S, s, [R EXCEPT !.x = i.id, !.w = k[1], !.pd = {<<"match", k[2]>>}])
+    [] proc = U_subscription_list_subscribers ->
+         IF subk = {} THEN CallErr(S, s, req, ErrNoSuchSub)
+         ELSE Emit(S, s, [R EXCEPT !.ids = {SidOf(S, c) : c \in S.subs[CHOOSE kk \in subk : TRUE].members}])
+    [] proc = U_subscription_count_suscribers ->
+         IF subk = {} THEN CallErr(S, s, req, ErrNoSuchSub)
+         ELSE Emit(S, s, [R EXCEPT !.x = Cardinality(S.subs[CHOOSE kk \in subk : TRUE].members)])
+    [] proc = U_session_add_testament ->
+         Emit([S EXCEPT !.tst[s] = Append(@, [topic |-> i.uri2, o |-> i.o, tag |-> i.tag, scope |-> i.how])], s, R)
+    [] proc = U_session_flush_testaments ->
+         LET sc == IF i.how = "" THEN "destroyed" ELSE i.how IN
+         Emit([S EXCEPT !.tst[s] = SelectSeq(@, LAMBDA t : (IF t.scope = "" THEN "destroyed" ELSE t.scope) # sc)], s, R)
+    [] proc = U_subscription_get_events ->
+         LET hk == {k \in subk : k \in DOMAIN S.hist} IN
+         IF hk = {} THEN Emit(S, s, [R EXCEPT !.hl = <<>>])
+         ELSE LET k    == CHOOSE kk \in hk : TRUE
+                  sel0 == HistSelect(S, k, i.f)
+                  sel1 == IF i.f.reverse THEN [j \in DOMAIN sel0 |-> sel0[Len(sel0) + 1 - j]] ELSE sel0
+                  sel  == IF i.f.limit > 0 /\ Len(sel1) > i.f.limit
+                          THEN SubSeq(sel1, Len(sel1) - i.f.limit + 1, Len(sel1)) ELSE sel1
+                  \* bind publication ids that no session had observed before
+                  bound(j) == IF sel[j].pub > 100000 /\ j \in DOMAIN hp THEN hp[j] ELSE sel[j].pub
+                  ren(pub) == IF \E j \in DOMAIN sel : sel[j].pub = pub THEN bound(CHOOSE j \in DOMAIN sel : sel[j].pub = pub) ELSE pub
+                  S1 == [S EXCEPT !.hist = [kk \in DOMAIN @ |-> [j \in DOMAIN @[kk] |-> [@[kk][j] EXCEPT !.pub = ren(@)]]],
+                                  !.used.pub = @ \cup {bound(j) : j \in DOMAIN sel}]
+              IN Emit(S1, s, [R EXCEPT !.hl = [j \in DOMAIN sel |-> [b |-> bound(j), v |-> IF k[2] = "exact" THEN <<"=">> ELSE sel[j].topic, p |-> sel[j].p]]])
+    [] OTHER -> CallErr(S, s, req, ErrNoSuchProc)
 
 \* --------------------------------------------------------------------------
 \* hcfg: sequence of [u, m, n] (topic, match policy, limit); users: sequence of [id, role]
